@@ -5,7 +5,8 @@
    tok_diff / diff_C07: Instances/HoldsC07.v - the very predicate the extracted monitor evaluates on the
    implementation's tokens; [observe] computes from a model token what the harness observes of a real one. *)
 From PV Require Import Base.Prelude Generated.T_lexer Model.Lexer Spec.LuaLex Instances.HoldsC07
-  Proofs.LexerProofs Proofs.LexerInv Proofs.LexerSpec Proofs.LexerNum Proofs.LexerAgree Proofs.LexerMain.
+  Proofs.LexerProofs Proofs.LexerInv Proofs.LexerSpec Proofs.LexerNum Proofs.LexerAgree Proofs.LexerMain
+  Proofs.LexerChunk Proofs.EchoProofs.
 
 (* THE property, for every byte string given as one chunk: if the source is in the dialect (the reference
    lexer is defined on it) the model lexes it and its token list passes the monitor predicate - same
@@ -19,6 +20,23 @@ Theorem C07_lex_agrees : forall src, Forall byte src ->
   end.
 Proof. exact model_holds_C07. Qed.
 Print Assumptions C07_lex_agrees.
+
+(* tokenisation does not depend on whether the text arrives as one chunk (.p8.png path) or split after line
+   feeds (.p8 path): same token list, same error - EVERY input (also outside the dialect), every chunk list
+   whose chunks, except the last, end with a line feed; every single-line matcher of the regenerated table is
+   shown not to consume or look past a line feed, the three multi-line scanners to be compositional at one *)
+Theorem C07_chunking : forall ls, Forall ends_lf (removelast ls) -> model_lex ls = model_lex [concat ls].
+Proof. exact model_lex_chunking. Qed.
+Print Assumptions C07_chunking.
+
+(* hence THE property on the .p8 path as well *)
+Theorem C07_lex_agrees_chunks : forall ls, Forall ends_lf (removelast ls) -> Forall byte (concat ls) ->
+  match model_lex ls with
+  | Ok ts => holds_C07 (concat ls) (map observe ts) = true
+  | Err _ => holds_C07_error (concat ls) = true
+  end.
+Proof. exact model_holds_C07_chunks. Qed.
+Print Assumptions C07_lex_agrees_chunks.
 
 (* the same, token by token *)
 Theorem C07_lex_agrees_tokens : forall src ss, Forall byte src -> spec_lex src = Some ss ->
@@ -68,6 +86,13 @@ Print Assumptions C07_positions.
 Theorem C07_positions_lua : forall bs l c, crlf_only bs = true -> spec_advance l c bs = advance (l, c) bs.
 Proof. exact spec_advance_eq. Qed.
 Print Assumptions C07_positions_lua.
+
+(* Lua.get_token_count (stats) on a source of the dialect = its counting rule applied to the reference tokens:
+   every significant token counts 1, except  : . ) ] }  local end  (0) and numbers whose text contains 'e' (2) *)
+Theorem C07_token_count : forall src ss, Forall byte src -> spec_lex src = Some ss ->
+  exists ts, model_lex [src] = Ok ts /\ token_count ts = spec_token_count_e ss.
+Proof. exact token_count_spec. Qed.
+Print Assumptions C07_token_count.
 
 (* non-vacuity: sources of the dialect exercising the former defects; the reference is defined on them *)
 Example C07_nonvacuous_keyword_glyph :
